@@ -43,12 +43,12 @@ type Item struct {
 }
 
 // Constructors.
-func U(v uint64) *Item          { return &Item{Kind: Uint, U: v} }
-func N(v uint64) *Item          { return &Item{Kind: Nint, U: v} } // value -1-v
-func Bs(b []byte) *Item         { return &Item{Kind: Bytes, B: b} }
-func T(s string) *Item          { return &Item{Kind: Text, B: []byte(s)} }
-func A(items ...*Item) *Item    { return &Item{Kind: Array, Items: items} }
-func M(kv ...*Item) *Item       { return &Item{Kind: Map, Items: kv} }
+func U(v uint64) *Item           { return &Item{Kind: Uint, U: v} }
+func N(v uint64) *Item           { return &Item{Kind: Nint, U: v} } // value -1-v
+func Bs(b []byte) *Item          { return &Item{Kind: Bytes, B: b} }
+func T(s string) *Item           { return &Item{Kind: Text, B: []byte(s)} }
+func A(items ...*Item) *Item     { return &Item{Kind: Array, Items: items} }
+func M(kv ...*Item) *Item        { return &Item{Kind: Map, Items: kv} }
 func Tg(n uint64, c *Item) *Item { return &Item{Kind: Tag, U: n, Items: []*Item{c}} }
 func Bool(b bool) *Item {
 	if b {
